@@ -819,6 +819,46 @@ def _tree_bookkeeping(ctx, prog):
                       found='returned %r, vertices %d, index entries %r' % (ret, len(vs), log[:1]), detail='by interpretation')
         except (absint.Unsupported, absint.Undecided, KeyError, TypeError, AttributeError):
             pass
+    # ---- add_vertex(q, parent): the insertion that records the parent itself (no separate add_edge)
+    if ins is not None and ins.arg_count == 3 and not edge:
+        for parent, pname in ((NONE, 'none'), (SOME(1), 'some')):
+            log = []
+
+            def h_kd2(I, st, a, t, b_):
+                return ('enum', 0, ((),))
+            try:
+                q = (Sym('q0'), Sym('q1'))
+                ret, cells = run(ins, [('refval', tree_of([None, 0]), ()), ('refval', q, ()), parent], {'KdTree::add': h_kd2})
+                vs = cells[0][vf[0]]
+                ok = ret == 2 and len(vs) == 3 and vs[2].get(pf[0]) == parent and tuple(vs[2].get(df[0])) == q and [n.get(pf[0]) for n in vs[:2]] == [NONE, SOME(0)]
+                ctx.check(ok, 'R13.7', 'add_vertex/parent-' + pname, ins.where(0), ins.path,
+                          'add_vertex(q, parent) must append a vertex holding q under the parent it is given and return its number',
+                          found='returned %r, vertices %d, parent %r' % (ret, len(vs), vs[2].get(pf[0]) if len(vs) == 3 else None), detail='by interpretation')
+            except (absint.Unsupported, absint.Undecided, KeyError, TypeError, AttributeError):
+                pass
+        if grow is not None:
+            sites = [(bi, t) for bi, t in grow.calls() if t['callee'].get('resolved') == ins.path]
+            nearest = [b for b in tree_bodies if b.arg_count == 2 and b.local_ty(0) == 'usize' and b.local_ty(2).startswith('&[') and b is not ins]
+            ok = len(sites) == 1 and len(nearest) == 1
+            found = None
+            new_t = None
+            if ok:
+                bi, t = sites[0]
+                par = strip(grow.op_term(t['args'][2], (bi, None)))
+                found = 'add_vertex(.., %s)' % show(par, maxdepth=3)
+                inner = strip(par[2]) if isinstance(par, tuple) and par[0] == 'agg' and 'Some' in str(par[1]) and len(par) == 3 else None
+                ok = isinstance(inner, tuple) and inner[0] == 'call' and inner[1] == nearest[0].path
+                new_t = strip(grow.call_term(t, (bi, None)))
+            ctx.check(ok, 'R13.7', 'extend/edge', grow.where(sites[0][0]) if sites else grow.where(0), grow.path,
+                      'the extension must link the new vertex below the nearest one: add_vertex(q_new, Some(nearest index))', found=found)
+            if ok:
+                pay = []
+                for t_, d, rb in grow.return_values():
+                    t_ = strip(t_)
+                    if isinstance(t_, tuple) and t_[0] == 'agg' and len(t_) == 3 and ('Reached' in str(t_[1]) or 'Advanced' in str(t_[1])):
+                        pay.append(strip(t_[2]) == new_t)
+                ctx.check(bool(pay) and all(pay), 'R13.7', 'extend/reports-new', grow.where(0), grow.path,
+                          'Reached / Advanced must carry the index of the vertex that was just added', found=str(pay))
     # ---- connect: repeat the extension until Trapped / Reached
     if until is not None and grow is not None:
         ctx.fn(until)
